@@ -70,6 +70,25 @@ func (fr *Frame) execInstr(st *State, in ssa.Instruction) {
 		}
 		Heap{st: st, log: curLog}.storeDeref(r, et, zeroVal(et))
 		fr.vals[x] = &Val{K: VScalar, T: x.Type(), X: r}
+		if shortTypeKey(et) == "bytes.Buffer" {
+			// trusted: the zero bytes.Buffer is an empty, accepting, fault-free stream
+			h := Heap{st: st, log: curLog}
+			g := c.eng.ghostFields
+			for _, z := range []string{"pos", "len", "reads", "writes"} {
+				if gf, ok := g[z]; ok {
+					h.storeGhost(r, gf, Num(0))
+				}
+			}
+			for _, z := range []string{"accepting", "faultfree"} {
+				if gf, ok := g[z]; ok {
+					h.storeGhost(r, gf, True)
+				}
+			}
+			if gf, ok := g["short"]; ok {
+				h.storeGhost(r, gf, False)
+			}
+			c.trusted["zero value of bytes.Buffer is an empty accepting stream"] = true
+		}
 	case *ssa.Store:
 		p := fr.get(st, x.Addr)
 		v := fr.get(st, x.Val)
@@ -169,8 +188,7 @@ func (fr *Frame) execInstr(st *State, in ssa.Instruction) {
 		for _, b := range x.Bindings {
 			fv.Bindings = append(fv.Bindings, fr.get(st, b))
 		}
-		id := Fresh("closure."+fn.Name(), SInt)
-		c.addFact(nil, Neq(id, Num(0)))
+		id := fnID("closure:" + fn.RelString(nil))
 		fr.vals[x] = &Val{K: VScalar, T: x.Type(), X: id, Fn: fv}
 	case *ssa.Lookup:
 		fr.vals[x] = fr.execLookup(st, x)
